@@ -172,3 +172,23 @@ Theorem C14_resolver_order : forall m1 m2 ms nullable,
   /\ (forall x, In x (first_occurrences [] (m1 :: m2 :: ms)) <-> In x (m1 :: m2 :: ms)).
 Proof. exact resolve_union_spec. Qed.
 Print Assumptions C14_resolver_order.
+
+(* ===================== exactness of the guard of C14_lossless_partial ===================== *)
+(* [safe] is sufficient, not necessary: the acceptance test inside it is exact for primitive variants
+   (C14_guard_exact_prims) but a shape-level over-approximation for dataclass variants
+   (C14_lossless_not_safe).
+   NOT PROVED (conjecture, stated for the exact guard safe_x := safe with [may_accept v j] replaced by
+   "structure v j succeeds"):
+     C14_safe_exact : forall t j, wf_ty t -> wf_json j -> (lossless t j <-> safe_x t j = true).
+   The -> direction needs the inverse of every relational lemma of Proofs/Union.v (kv_rel, fs_rel,
+   first_safe_try) — about as long again as safe_lossless; see the manifest. *)
+Theorem C14_guard_exact_prims :
+  safe (TUnion None [TInt; TStr]) (JStr [97]) = true /\ safe (TUnion None [TInt; TStr]) (JStr [55]) = false.
+Proof. exact safe_int_str_nondigit. Qed.
+Print Assumptions C14_guard_exact_prims.
+
+Theorem C14_lossless_not_safe :
+  safe (TUnion None [tA; tS]) (JObj [(k_x, JStr [113])]) = false /\
+  lossless (TUnion None [tA; tS]) (JObj [(k_x, JStr [113])]).
+Proof. exact lossless_not_safe. Qed.
+Print Assumptions C14_lossless_not_safe.
